@@ -4,8 +4,8 @@
    inv_law, id_law, id_param_law: Spec/Mat.v.  proper_rotation: Spec/Rot.v. *)
 From Coq Require Import Reals List Lra.
 From Cyecca Require Import Base.Ops Spec.Mat Spec.Rot Spec.Semidirect
-  Gen.SO2 Gen.SE2 Gen.Rn Gen.SO3Quat Gen.SO3Mrp Gen.SO3Dcm Gen.SE3Quat Gen.SE3Mrp Gen.SE23Quat Gen.SE23Mrp
-  Proofs.C01_planar Proofs.C01_SO3Quat Proofs.C01_SO3Mrp Proofs.C01_SO3Dcm Proofs.C01_DcmClosure Proofs.C01_SE3 Proofs.Shepperd Proofs.Conv.
+  Gen.SO2 Gen.SE2 Gen.Rn Gen.SO3Quat Gen.SO3Mrp Gen.SO3Dcm Gen.SO3Euler Gen.SE3Quat Gen.SE3Mrp Gen.SE23Quat Gen.SE23Mrp
+  Proofs.C01_planar Proofs.C01_SO3Quat Proofs.C01_SO3Mrp Proofs.C01_SO3Dcm Proofs.C01_DcmClosure Proofs.C01_SO3Euler Proofs.C01_SE3 Proofs.Shepperd Proofs.Conv.
 Import ListNotations.
 Local Open Scope R_scope.
 
@@ -84,6 +84,17 @@ Theorem C01_SO3Dcm_assoc : forall a b c, len9 a -> len9 b -> len9 c ->
   SO3Dcm_product_v (SO3Dcm_product_v a b) c = SO3Dcm_product_v a (SO3Dcm_product_v b c).  Proof. exact dcm_assoc_param. Qed.
 Theorem C01_SO3Dcm_from_Matrix : forall a, len9 a -> SO3Dcm_from_Matrix_v (SO3Dcm_to_Matrix_v a) = a.
 Proof. exact dcm_fromM. Qed.
+
+(* ---- SO(3), Euler angles (3-2-1): the group operations go through the rotation matrices, for all angles ---- *)
+Theorem C01_SO3Euler_identity_matrix : SO3Euler_to_Matrix_v SO3Euler_identity_v = mid 3.
+Proof. exact euler_identity_matrix. Qed.
+Theorem C01_SO3Euler_product_through_matrices : forall a b, length a = 3%nat -> length b = 3%nat ->
+  SO3Euler_product_v a b = SO3Euler_from_Matrix_v (mmul 3 3 3 (SO3Euler_to_Matrix_v a) (SO3Euler_to_Matrix_v b)).
+Proof. exact euler_product_through_matrices. Qed.
+Theorem C01_SO3Euler_inverse_through_matrices : forall a, length a = 3%nat ->
+  SO3Euler_inverse_v a = SO3Euler_from_Matrix_v (mtrans 3 3 (SO3Euler_to_Matrix_v a)).
+Proof. exact euler_inverse_through_matrices. Qed.
+
 
 (* ---- SE(3), SE_2(3): every SO(3) parameterisation plugged in (generic semidirect theorem) ---- *)
 Theorem C01_semidirect_SE3_generic :
@@ -164,6 +175,9 @@ Print Assumptions C01_SO3Dcm_inverse_is_rotation.
 Print Assumptions C01_SO3Dcm_product_is_rotation.
 Print Assumptions C01_SO3Dcm_assoc.
 Print Assumptions C01_SO3Dcm_from_Matrix.
+Print Assumptions C01_SO3Euler_identity_matrix.
+Print Assumptions C01_SO3Euler_product_through_matrices.
+Print Assumptions C01_SO3Euler_inverse_through_matrices.
 Print Assumptions C01_semidirect_SE3_generic.
 Print Assumptions C01_semidirect_SE23_generic.
 Print Assumptions C01_SE3Quat_hom.
